@@ -145,6 +145,68 @@ __CPROVER_ensures(cursor->len > SIZE_MAX - OLD(buffer->len) ==> RET == AWS_OP_ER
 __CPROVER_ensures(g_on && g_k < OLD(buffer->len) ==> buffer->buffer[g_k] == g_old)
 ;
 
+/* ================================================================== query-string iteration: ONE STEP of aws_query_string_next_param
+ * Property: "Query-string iteration yields each non-empty key/value pair once, in order" (queries with empty pairs, missing
+ * '=' and repeated '&').  The PAIRS of a query string Q are its maximal '&'-free pieces; one step hands out the first
+ * non-empty piece that starts at or after the position S where the search is due to start:
+ *     first call (param->value.ptr == NULL: zeroed param)     S = 0
+ *     resume     (param = the pair handed out before)          S = (end of that pair) + 1
+ *                                                                = offset(value.ptr) + value.len + 1
+ *                (a key WITHOUT '=' has value = the empty view at the END of the key, so the end of the pair is the end of
+ *                 the value in both shapes)
+ * "once, in order" is then the induction over the steps: every byte in [S, start of the returned pair) is '&' (only EMPTY
+ * pieces were skipped, nothing non-empty is lost, nothing before S is seen again), the returned pair is a maximal '&'-free
+ * non-empty piece (ends at '&' or at the end of Q), and `false` is returned exactly when nothing but '&' is left from S on.
+ * The pair is split at its FIRST '=': key = text before it, value = text after it; no '=': key = the piece, value = empty
+ * view at its end.  Everything is a sub-view of Q.  "For all positions" is stated for the arbitrary witnesses g_qw (a
+ * skipped position) and g_j (a position inside the pair; the same witness the contracts of aws_byte_cursor_next_split and
+ * memchr in contracts/byte_buf.h speak about).  g_qs_s names S (pinned in `requires`).
+ * The callees aws_byte_cursor_next_split (PROVED in C01: units next_split / next_split_end) and memchr (ASSUMED) are
+ * replaced by their contracts from contracts/byte_buf.h; the skipping do-while has a loop contract (overlay/uri.loops).
+ * The view without storage (NULL, 0) is not covered here (the loop contract cannot carry next_split's "some fresh
+ * non-NULL pointer" through the loop head): bounded unit query_bounded and native_roundtrips. */
+size_t g_qs_s; /* S: offset in Q at which the search for the next pair starts */
+size_t g_qw;   /* arbitrary position: "every skipped byte is '&'" / "nothing but '&' is left" */
+#define QS_OFF(q, p) ((size_t)(POFF(p) - POFF((q).ptr)))
+#define QS_IN(q, p) (__CPROVER_same_object((p), (q).ptr) && POFF(p) >= POFF((q).ptr) && QS_OFF(q, p) <= (q).len)
+/* length of the pair {key, value}: from the start of the key to the end of the value */
+#define QS_PAIR_LEN(pm) ((size_t)(POFF((pm)->value.ptr) - POFF((pm)->key.ptr)) + (pm)->value.len)
+/* the two shapes of a pair: "key=value" / "key" */
+#define QS_HAS_EQ(pm) ((pm)->value.ptr == (pm)->key.ptr + (pm)->key.len + 1)
+#define QS_NO_EQ(pm) ((pm)->value.ptr == (pm)->key.ptr + (pm)->key.len && (pm)->value.len == 0)
+bool aws_query_string_next_param(struct aws_byte_cursor query_string, struct aws_uri_param *param)
+__CPROVER_requires(__CPROVER_is_fresh(param, sizeof(*param)))
+__CPROVER_requires(query_string.ptr != NULL && __CPROVER_is_fresh(query_string.ptr, query_string.len))
+/* resume: param is a pair handed out before - key and value are views inside Q in one of the two shapes */
+__CPROVER_requires(param->value.ptr != NULL ==>
+                   __CPROVER_pointer_in_range_dfcc(query_string.ptr, param->key.ptr, query_string.ptr + query_string.len) &&
+                   __CPROVER_pointer_in_range_dfcc(query_string.ptr, param->value.ptr, query_string.ptr + query_string.len) &&
+                   param->key.len <= query_string.len - QS_OFF(query_string, param->key.ptr) &&
+                   param->value.len <= query_string.len - QS_OFF(query_string, param->value.ptr) &&
+                   (QS_HAS_EQ(param) || QS_NO_EQ(param)))
+__CPROVER_requires(g_qs_s == (param->value.ptr == NULL ? (size_t)0 : QS_OFF(query_string, param->value.ptr) + param->value.len + 1))
+__CPROVER_assigns(*param, g_mm)
+/* ---- nothing left: param untouched, and from S on there is nothing but '&' (or S is behind the end) */
+__CPROVER_ensures(!RET ==> param->key.ptr == OLD(param->key.ptr) && param->key.len == OLD(param->key.len) &&
+                           param->value.ptr == OLD(param->value.ptr) && param->value.len == OLD(param->value.len))
+__CPROVER_ensures(!RET && g_qs_s <= g_qw && g_qw < query_string.len ==> query_string.ptr[g_qw] == '&')
+/* ---- a pair: sub-views of Q, at or after S, non-empty */
+__CPROVER_ensures(RET ==> QS_IN(query_string, param->key.ptr) && QS_IN(query_string, param->value.ptr) &&
+                          POFF(param->value.ptr) >= POFF(param->key.ptr) &&
+                          QS_OFF(query_string, param->key.ptr) >= g_qs_s && QS_PAIR_LEN(param) > 0 &&
+                          QS_PAIR_LEN(param) <= query_string.len - QS_OFF(query_string, param->key.ptr))
+/* only empty pieces were skipped */
+__CPROVER_ensures(RET && g_qs_s <= g_qw && g_qw < QS_OFF(query_string, param->key.ptr) ==> query_string.ptr[g_qw] == '&')
+/* the pair is a maximal '&'-free piece */
+__CPROVER_ensures(RET && g_j < QS_PAIR_LEN(param) ==> param->key.ptr[g_j] != '&')
+__CPROVER_ensures(RET && QS_OFF(query_string, param->key.ptr) + QS_PAIR_LEN(param) < query_string.len ==>
+                  param->key.ptr[QS_PAIR_LEN(param)] == '&')
+/* split at the FIRST '=' (key = text before it, value = text after it), or no '=' at all: value empty */
+__CPROVER_ensures(RET ==> param->key.len <= QS_PAIR_LEN(param) && (g_j < param->key.len ==> param->key.ptr[g_j] != '='))
+__CPROVER_ensures(RET ==> (QS_HAS_EQ(param) && param->key.len < QS_PAIR_LEN(param) && param->key.ptr[param->key.len] == '=') ||
+                          (QS_NO_EQ(param) && param->key.len == QS_PAIR_LEN(param)))
+;
+
 /* ================================================================== ghost log of the delimiter searches (parser units)
  * ASSUMED model of libc memchr (glibc's memchr is not examined; CBMC's library model is an unbounded loop): straight-line
  * code that returns the FIRST occurrence -- result index r with s[r] == c, or NULL -- and logs the search (character,
